@@ -213,6 +213,21 @@ func c13GuidCase(c *h.Ctx, k *c13Case) {
 			c.Fail("guid.GUID.ToBytes", "roundtrip:bytes", fmt.Sprintf("FromRawBytes(%x).ToBytes() = %x", []byte(k.W), back), smp)
 		}
 		// the same packet parsed into a receiver that already holds the previous case's value: every field is assigned
+		// the 16 octets of a GUID seldom arrive alone: a GUID at the head of a longer buffer (`g.FromRawBytes(buf[off:])`, a TLV
+		// value followed by the next entry) is the same GUID -- or is refused; it is never another value
+		for _, extra := range [][]byte{{0xAA}, {0xAA, 0xBB, 0xCC}, {0, 0, 0, 0, 0, 0, 0, 1}} {
+			var gl guid.GUID
+			long := append(append([]byte(nil), k.W...), extra...)
+			if p := h.Guard(func() { gl.FromRawBytes(long) }); p != "" {
+				c.Fail("guid.GUID.FromRawBytes", "panic", p, smp)
+				break
+			}
+			c.Exec(1)
+			if lf := c13GuidFields(&gl); fmt.Sprint(lf) != fmt.Sprint(got) && fmt.Sprint(lf) != fmt.Sprint(c13GuidFields(&guid.GUID{})) {
+				c.Fail("guid.GUID.FromRawBytes", "trailing-bytes-change-the-value", fmt.Sprintf("wire %x followed by %x parses to %v; the 16 octets alone to %v", []byte(k.W), extra, lf, got), smp)
+				break
+			}
+		}
 		h.Guard(func() { c13ReusedGUID.FromRawBytes(k.W) })
 		if rg := c13GuidFields(&c13ReusedGUID); fmt.Sprint(rg) != fmt.Sprint(got) {
 			c.Fail("guid.GUID.FromRawBytes", "reused-receiver", fmt.Sprintf("wire %x parsed into a GUID that held another value: %v, into a fresh one: %v", []byte(k.W), rg, got), smp)
